@@ -106,6 +106,12 @@ def test_phase(rng, fmt, ch, F, filehex, nops, sr=8000, raw_fmt=None):
         lines.append(("open h1 s0 r fmt=%08x ch=%d sr=%d" % (fmt.word, ch, sr)) if raw else "open h1 s0 r")
         lines += ["rraw h1 %d" % (F * raw_bw(fmt, ch)), "close h1"]
     lines.append(("open h0 s0 r fmt=%08x ch=%d sr=%d" % (fmt.word, ch, sr)) if raw else "open h0 s0 r")
+    if F * ch > 8192 + 800:
+        # long files (handlecheck.allformat_read_campaign adds one per sample-granular codec): per caller type, a small read behind every staging-buffer
+        # boundary (1024 / 2048 / 4096 / 8192 items) and a long read that crosses them at another phase than the sequential reference read did
+        for ty in TYS:
+            lines += ["seek h0 %d 0" % (F - 700 // ch), "r h0 %s i %d" % (ty, 600 // ch * ch), "seek h0 0 1",
+                      "seek h0 1 0", "r h0 %s i %d" % (ty, (F - 1) * ch), "seek h0 0 1"]
     b = BLOCK_HINT.get(fmt.codec, 1)
     if fmt.major == 0x11:
         b = 60
